@@ -187,9 +187,13 @@ def parseBool (body : Bytes) : Res :=
     else .err
   | _ => .need
 
-/-- `parse_frame`; the first argument is recursion fuel (nesting depth budget). -/
+/-- `MAX_NESTING` of parser.rs: containers may be nested this deep around a frame. -/
+def maxNesting : Nat := 128
+
+/-- `parse_frame`; the first argument is the nesting budget left (`MAX_NESTING + 1 - depth`): when it is
+    used up the frame is refused ("Nesting too deep"), before the data is looked at. -/
 def parseFrame : Nat → Bytes → Res
-  | 0, _ => .need
+  | 0, _ => .err
   | _+1, [] => .need
   | fuel+1, t :: body =>
       if t = 43 then parseLineWith (fun l => some (.simple l)) body
@@ -204,8 +208,8 @@ def parseFrame : Nat → Bytes → Res
       else if t = 126 then parseAgg (parseFrame fuel) false body
       else .err
 
-/-- `parse_resp_frame` on a whole slice (enough fuel for any nesting the slice can hold). -/
-def parseBytes (d : Bytes) : Res := parseFrame (d.length + 1) d
+/-- `parse_resp_frame` on a whole slice. -/
+def parseBytes (d : Bytes) : Res := parseFrame (maxNesting + 1) d
 
 /-! ### Capacity requests (`Vec::with_capacity(len)`) made while parsing `d`
 
